@@ -32,8 +32,22 @@ def untraced(fn, *args, **kwargs):
     under test, so it is run natively (CrossHair's tracer off).  The solver's job is the exhaustive
     enumeration of the inputs (models of the precondition), not the interpretation of this call."""
     # (the audit wall is opened as well: harnesses that drive the CLI write scratch files)
-    with _NoTracing(), _opened_auditwall():
-        return fn(*args, **kwargs)
+    # ISLa's z3_solve changes GLOBAL z3 parameters (parallel.enable, smt.random_seed) after an `unknown`; CrossHair's own
+    # solver lives in the same process and z3 context (observed: CrossHair dying with a Z3 parameter listing), so these two
+    # calls are turned into no-ops while the code under test runs.
+    import z3 as _z3
+    orig = _z3.set_param
+
+    def guarded(*a, **k):
+        if a and a[0] in ("parallel.enable", "smt.random_seed"):
+            return None
+        return orig(*a, **k)
+    _z3.set_param = guarded
+    try:
+        with _NoTracing(), _opened_auditwall():
+            return fn(*args, **kwargs)
+    finally:
+        _z3.set_param = orig
 
 try:  # only present in the CrossHair overlay; replay runs under plain /venv/bin/python
     from crosshair import deep_realize as realize, IgnoreAttempt
